@@ -45,6 +45,16 @@
     unconditionally evaluated expression position).  Everything else is [SUnsupported] /
     [EUnsupported]: goroutines, defer, closures, switch, select, goto, method calls, structs,
     general maps, pointers other than a dereferenced parameter, floating point.
+    Batch 2 additions: map[string]T / map[uint8]T ([VMap]; a uint8 key is its one-byte string,
+    [EKeyOfInt]); [for k, v := range m] over a map ([SRangeMap]: the order is whatever
+    permutation of the keys the program's oracle answers, theorems hold for every oracle);
+    outside-world calls through the oracle ([SOracle]); bytes.Compare ([ECompare]), bytes.Equal;
+    make([]T, n, c) with its panic ([EMakeCap]); copy(x[off:], src) and
+    binary.BigEndian.PutUintNN(x[off:], v) ([SCopyAt], [SPutBe]); sort.Search(n, closure) inlined
+    by the translator as the standard library's halving loop; methods: a value receiver of a
+    named slice type is the first parameter, the fields of a struct receiver are leading
+    parameters (in/out when written), a []byte field whose capacity is used has a companion
+    parameter holding the bytes between len and cap; *[N]T parameters are in/out slices.
     The interpreter iterates [range] over a snapshot of the slice; the translator refuses
     writes to the ranged slice inside the loop body, where Go's behaviour would differ. *)
 From Coq Require Import List ZArith NArith Bool String Lia.
